@@ -156,6 +156,9 @@ pub struct KnownFinding {
     pub trigger: Vec<String>,
     pub benign: Vec<String>,
     pub class_prefix: String,
+    pub classes: Vec<String>,
+    /// the first difference must lie under a node with this tag (e.g. a component name)
+    pub locus_contains: Vec<String>,
 }
 
 pub fn load_known_findings() -> Vec<KnownFinding> {
@@ -186,6 +189,8 @@ pub fn load_known_findings() -> Vec<KnownFinding> {
             trigger: strs("trigger"),
             benign: strs("benign"),
             class_prefix: v.get("class_prefix").and_then(|x| x.as_str()).unwrap_or("").to_string(),
+            classes: strs("classes"),
+            locus_contains: strs("locus_contains"),
         });
     }
     out
@@ -204,14 +209,14 @@ pub fn parallel_map<T: Send + 'static>(n: u64, workers: usize, f: impl Fn(u64) -
         let next = next.clone();
         let out = out.clone();
         let f = f.clone();
-        hs.push(std::thread::spawn(move || loop {
+        hs.push(std::thread::Builder::new().stack_size(256 << 20).spawn(move || loop {
             let i = next.fetch_add(1, Ordering::SeqCst);
             if i >= n {
                 break;
             }
             let r = f(i);
             out.lock().unwrap()[i as usize] = Some(r);
-        }));
+        }).expect("spawn worker"));
     }
     for h in hs {
         h.join().expect("worker thread panicked");
